@@ -124,14 +124,12 @@ Section Scan.
         end
     | Loop a => match scan cur a d with Reject f k => Reject f k | _ => Ok d end
     | IfComp c a =>
-        match cur with
-        | Some _ => Reject 0 "nested component loop"
-        | None =>
-            match scan (Some c) a d with
-            | Reject f k => Reject f k
-            | Top => Ok d
-            | Ok d' => Ok (fst d, addp c (filter (fun k => negb (mem k (fst d))) (fst d')) (snd d))
-            end
+        (* inside the body the facts recorded for class c may be used (also when this loop is nested in the
+           body of another class: a handler that re-initialises all result tables) *)
+        match scan (Some c) a d with
+        | Reject f k => Reject f k
+        | Top => Ok d
+        | Ok d' => Ok (fst d, addp c (filter (fun k => negb (mem k (fst d))) (fst d')) (snd d))
         end
     end.
 End Scan.
